@@ -6,44 +6,6 @@ open Wz Wz.Proto Wz.Wire Wz.Hdr
 
 /-! ### Headers -/
 
-def pSlice (a b : String) : Option Slice := do
-  let a ← pOptInt a
-  let b ← pOptInt b
-  pure ⟨a, b⟩
-
-def pHdrOp (s : String) : Option Hdr.Op :=
-  match s.splitOn "," with
-  | ["add", k, v] => do pure (.add (← pAtom k) (← pAtom v))
-  | ["set", k, v] => do pure (.set (← pAtom k) (← pAtom v))
-  | ["setlist", k, vs] => do pure (.setlist (← pAtom k) (← pAtoms vs))
-  | ["setdefault", k, v] => do pure (.setdefault (← pAtom k) (← pAtom v))
-  | ["setlistdefault", k, vs] => do pure (.setlistdefault (← pAtom k) (← pAtoms vs))
-  | ["extend", tag, body, kw] => do pure (.extend (← pArg tag body) (← pMap kw))
-  | ["update", tag, body, kw] => do pure (.update (← pArg tag body) (← pMap kw))
-  | ["setitem", k, v] => do pure (.setitemKey (← pAtom k) (← pAtom v))
-  | ["setidx", i, k, v] => do pure (.setitemIdx (← pInt i) (← pAtom k, ← pAtom v))
-  | ["setslice", a, b, ps] => do pure (.setitemSlice (← pSlice a b) (← pPairs ps))
-  | ["delitem", k] => do pure (.delitemKey (← pAtom k))
-  | ["delidx", i] => do pure (.delitemIdx (← pInt i))
-  | ["delslice", a, b] => do pure (.delitemSlice (← pSlice a b))
-  | ["remove", k] => do pure (.remove (← pAtom k))
-  | ["pop"] => some .popLast
-  | ["popkey", k, d] => do pure (.popKey (← pAtom k) (← pOptAtom d))
-  | ["popidx", i] => do pure (.popIdx (← pInt i))
-  | ["popitem"] => some .popitem
-  | ["clear"] => some .clear
-  | ["ior", tag, body] => do
-    match ← pArg tag body with
-    | some a => pure (.ior a)
-    | none => none
-  | _ => none
-
-def oHdrRet : Hdr.Ret → String
-  | .none => "~"
-  | .str s => oS s
-  | .pair p => oPair p
-  | .strs l => oStrs l
-
 def hdrIdxProbes : List Int := [0, 1, -1]
 def hdrSliceProbes : List Slice := [⟨some 1, none⟩, ⟨none, some 1⟩, ⟨some (-1), none⟩, ⟨some 0, some (-1)⟩]
 
